@@ -365,6 +365,20 @@ class Parser:
             self.__set_expected("identifier")
             return True
 
+        if (
+            ttype in ["comma", "right_parenthesis"]
+            and self.__curcommand.non_deterministic_args
+            and not self.__curcommand.iscomplete()
+        ):
+            # a test whose first argument is optional (hasflag "x") ends
+            # here: settle its arguments, then read the token again for
+            # the enclosing test list
+            self.__curcommand.reassign_arguments()
+            if not self.__curcommand.iscomplete():
+                return False
+            self.lexer.pos -= 1
+            return self.__check_command_completion(testsemicolon=False)
+
         if ttype == "comma":
             self.__set_expected("identifier")
             return True
